@@ -23,6 +23,10 @@ var (
 	headerSize  = binary.Size(storage{})
 	sizeFloat64 = binary.Size(float64(0))
 
+	// maxElems is the largest number of elements for which the length
+	// of the encoded form does not overflow an int.
+	maxElems = (maxLen - int64(headerSize)) / int64(sizeFloat64)
+
 	errWrongType = errors.New("mat: wrong data type")
 
 	errTooBig    = errors.New("mat: resulting data slice too big")
@@ -165,11 +169,12 @@ func (m *Dense) UnmarshalBinary(data []byte) error {
 	if rows < 0 || cols < 0 {
 		return errBadSize
 	}
-	size := rows * cols
-	if size == 0 {
+	if rows == 0 || cols == 0 {
 		return ErrZeroLength
 	}
-	if int(size) < 0 || size > maxLen {
+	if rows > maxElems/cols {
+		// rows*cols may not be representable, so
+		// do not calculate it.
 		return errTooBig
 	}
 	if len(data) != headerSize+int(rows*cols)*sizeFloat64 {
@@ -221,11 +226,12 @@ func (m *Dense) UnmarshalBinaryFrom(r io.Reader) (int, error) {
 	if rows < 0 || cols < 0 {
 		return n, errBadSize
 	}
-	size := rows * cols
-	if size == 0 {
+	if rows == 0 || cols == 0 {
 		return n, ErrZeroLength
 	}
-	if int(size) < 0 || size > maxLen {
+	if rows > maxElems/cols {
+		// rows*cols may not be representable, so
+		// do not calculate it.
 		return n, errTooBig
 	}
 
@@ -358,7 +364,7 @@ func (v *VecDense) UnmarshalBinary(data []byte) error {
 	if n < 0 {
 		return errBadSize
 	}
-	if int64(maxLen) < n {
+	if n > maxElems {
 		return errTooBig
 	}
 	if len(data) != headerSize+int(n)*sizeFloat64 {
@@ -407,7 +413,7 @@ func (v *VecDense) UnmarshalBinaryFrom(r io.Reader) (int, error) {
 	if l < 0 {
 		return n, errBadSize
 	}
-	if int64(maxLen) < l {
+	if l > maxElems {
 		return n, errTooBig
 	}
 
